@@ -209,7 +209,7 @@ pub fn search(seed: u64, n: u64) {
     // but the mid points of edges of one operand are often level with edges of the other one, so that classification rays run ALONG edges
     // (and along the collinear pieces into which the collision stage has cut them) (own stream; from the round-5 change to crossing_edges)
     let mut rng_p = Rng(seed ^ 0x9A217C01);
-    for k in 0..(10 + n / 10) {
+    for k in 0..(240 + n / 4) {
         let rectilinear = |rng: &mut Rng, par: f64| -> Vec<Coord2> {
             let c = |rng: &mut Rng, lo: u64, hi: u64| 2.0 * (lo + rng.i(hi - lo + 1)) as f64 + par;
             let (x0, y0) = (c(rng, 0, 4), c(rng, 0, 4));
@@ -233,7 +233,7 @@ pub fn search(seed: u64, n: u64) {
         let (a, b) = if k % 2 == 0 { (a, b) } else { (b, a) };
         stats.count("pair.parity_separated_rectilinear");
         stats.case(&format!("parity_separated_rectilinear A={:?} B={:?}", a, b), true);
-        check_pair_x(&mut stats, &mut rng_p, &a, &b, "parity_separated_rectilinear", 200, 200, false);
+        check_pair_x(&mut stats, &mut rng_p, &a, &b, "parity_separated_rectilinear", 80, 80, false);
     }
     for _ in 0..n {
         let pair = gen_pair(&mut rng);
